@@ -54,6 +54,18 @@ CLAIMS = {
              "send_pgn result judged against a bus-only tracker of busy pairs, then full concurrency. Proved for the code as repaired by fix D1.",
         technique="Lean 4 theorems over hand model with regenerated leaves; lock-step correspondence; history oracle on real stacks",
         design="§8 C10"),
+    'C07': dict(
+        text="Proof (Lean 4), J1939-21: the table invariant WF (unique keys, every record has a deadline, a record sending in a CTS window "
+             "knows its wait-on packet) holds initially and is preserved by send_pgn, by EVERY received frame (any identifier, any data, also "
+             "when the handler raises) and by the background pass; from a WF state the pass never raises, the wake-up it asks for is strictly in "
+             "the future (no busy spin) and no record whose deadline has passed is left (released or progressed and re-armed); all reflected "
+             "timeouts <= 1.25 s.  Partial: J1939-22 (FD) is covered by correspondence/oracle only until Dll22 theorems exist; timers still "
+             "firing on time is C12's theorem composed in the oracle, not yet in Lean.",
+        note="Induction over the key snapshot of both loops and over the send-window loop. Proved for the code as repaired by fix D1 "
+             "(without it the no-spin theorem is false: late CTS). Tie: lock-step correspondence on hostile scripts with table dumps after "
+             "every frame; oracle: real ECU under 1..60 alphabet frames incl. sessions to an address nobody owns.",
+        technique="Lean 4 invariant proofs (loop inductions) over hand model with regenerated leaves; lock-step correspondence; hostile-traffic oracle",
+        design="§8 C07"),
 }
 
 NOT_YET = {}
